@@ -24,6 +24,10 @@ func init() {
 			{"C10.R4", "q", "safe decompress wrappers", c10r4},
 			{"C10.R5", "q", "C bounds checks compiled in", c10r5},
 			{"C10.R6", "q", "Go decoder takes the header length from the stream", c10r6},
+			{"C10.R7", "q", "cgo wrapper geometry (worst-case destination, trimmed result, verified size); whole body compressed after the sample", c10r7},
+			{"C10.R8", "q", "value hashes are taken over decompressed bytes", c10r8},
+			{"C10.R9", "q", "C and Go compressors agree on the compact-header threshold", c10r9},
+			{"C09.R8", "q", "shared: buffer copies are exact", c09r8},
 		},
 	})
 }
